@@ -161,14 +161,18 @@ def economy(draw, zones=(1, 3), horizon=(3, 5), want_cross=None, gold=True, fede
     all_c = [(zi, ci) for zi, z in enumerate(spec['zones']) for ci, c in enumerate(z['countries']) if c['hh']]
     need_ext = any(c['gov'] and c['gov']['kind'] == 'gold' for z in spec['zones'] for c in z['countries'])
     if links and len(all_c) >= 2:
-        nl = draw(st.sampled_from([1, 0, 2, 3]))
+        nl = draw(st.sampled_from([1, 2, 0, 3, 4]))
         for _ in range(nl):
             a = draw(st.sampled_from(all_c))
             b = draw(st.sampled_from([x for x in all_c if x != a]))
             if draw(st.booleans()):
                 amount = draw(st.sampled_from([dec2(draw(st.integers(1, 2000))), '0.05*LAG_F', '0.1000*AfterTax']))
-                spec['links'].append({'kind': 'gift', 'src': list(a), 'dst': list(b), 'amount': amount,
-                                      'name': 'GIFT%d' % len(spec['links']),
+                name = 'GIFT%d' % len(spec['links'])
+                earlier = [l for l in spec['links'] if l['kind'] == 'gift' and l['src'] == list(a)]
+                if earlier and draw(st.booleans()):
+                    # the same amount variable paid once more (to another or the same recipient): repeated flows accumulate
+                    name, amount = earlier[0]['name'], earlier[0]['amount']
+                spec['links'].append({'kind': 'gift', 'src': list(a), 'dst': list(b), 'amount': amount, 'name': name,
                                       'inc_src': draw(st.booleans()), 'inc_dst': draw(st.booleans())})
             else:
                 # country a imports from the business of country b
@@ -453,7 +457,8 @@ def _construct(spec, out, mod, zsel, nm, dsc, make_external, order_seed, hooks):
         if l['kind'] == 'gift':
             src = S[(a[0], a[1], 'hh0')]
             dst = S[(b[0], b[1], 'hh0')]
-            src.AddVariable(l['name'], dsc('gift'), l['amount'])
+            if l['name'] not in src.EquationBlock:
+                src.AddVariable(l['name'], dsc('gift'), l['amount'])
             mod.RegisterCashFlow(src, dst, l['name'], is_income_source=l['inc_src'], is_income_dest=l['inc_dst'])
         else:
             market = S[(a[0], a[1], 'goods')]
